@@ -47,7 +47,8 @@ pub struct FoundCred {
 pub enum Ev {
     Invoke { kind: &'static str },
     Find { ids: Option<Vec<Vec<u8>>>, rp: String },
-    FindRet { result: Result<Vec<FoundCred>, u8>, injected: bool },
+    /// `held`: what the backing store held when it answered (shipped backends only)
+    FindRet { result: Result<Vec<FoundCred>, u8>, injected: bool, held: Option<Vec<(Vec<u8>, String)>> },
     Save { cred: CredSnap, rk: bool, user_id: Vec<u8>, rp_id: String },
     SaveRet { result: Result<(), u8>, injected: bool },
     Update { cred: CredSnap },
@@ -95,6 +96,8 @@ pub struct WorldState {
     pub plans: Vec<OpPlan>,
     /// contents of the backing store as last published by the seam
     pub contents: Vec<CredSnap>,
+    /// `{:?}` of every stored passkey as last published
+    pub contents_debug: Vec<String>,
     /// every credential ever accepted by the store, in creation order
     pub creds: Vec<ModelCred>,
     pub fired: BTreeMap<&'static str, u64>,
@@ -210,6 +213,18 @@ impl AnyBackend {
         }
     }
 
+    pub fn debug_all(&self) -> Vec<String> {
+        match self {
+            AnyBackend::Ref(r) => r.creds.iter().map(|p| format!("{p:?}")).collect(),
+            AnyBackend::Memory(m) => {
+                let mut v: Vec<String> = m.iter().map(|(k, p)| format!("{}:{p:?}", hex(k))).collect();
+                v.sort();
+                v
+            }
+            AnyBackend::Slot(s) => vec![format!("{s:?}")],
+        }
+    }
+
     pub fn get_mut(&mut self, id: &[u8]) -> Option<&mut Passkey> {
         match self {
             AnyBackend::Ref(r) => r.creds.iter_mut().find(|p| p.credential_id.as_slice() == id),
@@ -273,7 +288,10 @@ impl Seam {
 
     fn publish(&self) {
         let snap = self.backend.snapshot();
-        lk(&self.world).contents = snap;
+        let dbg = self.backend.debug_all();
+        let mut w = lk(&self.world);
+        w.contents = snap;
+        w.contents_debug = dbg;
     }
 }
 
@@ -295,7 +313,7 @@ impl CredentialStore for Seam {
         );
         YieldN(pre).await;
         if let Some(st) = fault {
-            lk(&self.world).log(Ev::FindRet { result: Err(st), injected: true });
+            lk(&self.world).log(Ev::FindRet { result: Err(st), injected: true, held: None });
             return Err(StatusCode::from(st));
         }
         let res = match &self.backend {
@@ -314,7 +332,11 @@ impl CredentialStore for Seam {
                 .collect()),
             Err(e) => Err(status_byte(e)),
         };
-        lk(&self.world).log(Ev::FindRet { result: logged, injected: false });
+        let held = match &self.backend {
+            AnyBackend::Ref(_) => None,
+            b => Some(b.snapshot().into_iter().map(|c| (c.id, c.rp_id)).collect()),
+        };
+        lk(&self.world).log(Ev::FindRet { result: logged, injected: false, held });
         YieldN(post).await;
         res
     }
@@ -823,6 +845,7 @@ pub struct RunRecord {
     pub ops: Vec<OpRecord>,
     pub initial_store: Vec<CredSnap>,
     pub final_store: Vec<CredSnap>,
+    pub final_store_debug: Vec<String>,
     pub creds: Vec<ModelCred>,
     pub outcome: Outcome2,
     pub steps: u64,
@@ -1543,6 +1566,7 @@ pub fn run_ceremony(c: &Ceremony) -> RunRecord {
         events: Vec::new(),
         plans: (0..c.actors.len()).map(|_| OpPlan::default()).collect(),
         contents: initial.clone(),
+        contents_debug: Vec::new(),
         creds: c
             .prelude
             .iter()
@@ -1646,6 +1670,7 @@ pub fn run_ceremony(c: &Ceremony) -> RunRecord {
         ops,
         initial_store: initial,
         final_store: w.contents.clone(),
+        final_store_debug: w.contents_debug.clone(),
         creds: w.creds.clone(),
         outcome,
         steps,
